@@ -20,7 +20,7 @@ use std::rc::Rc;
 pub static ENGINE: Engine = Engine {
     prop: "C14",
     level: "exploration",
-    rule: "diagram export: every Boolean function over 3 (4) named variables whose names need escaping (a', e-acute, x_1, b) as an interned diagram x filter Any/True/False through BDDGraph::render_dot, read back with an independent DOT reader: every node id declared once, every edge endpoint declared, one root, at most one T and one F edge per test node, declared nodes = distinct sub-diagrams minus the omitted leaf, only edges into the omitted leaf missing, and the read-back decision graph (a missing edge meaning the omitted leaf) has the truth table of f. Parse-tree export: every AST <= 3 (4) nodes over an alphabet with every node kind (incl. references, empty lists, repeated operands) through SymbolicParseTree::render_dot, read back as a term DAG from node and edge labels, unfolded, == the parsed tree. CLI: -d / -p files of every formula <= 3 (4) nodes equal the API rendering up to node addresses. distinct = distinct DOT texts",
+    rule: "diagram export: every Boolean function over 3 (4) named variables whose names need escaping (a', e-acute, x_1, b) as an interned diagram x filter Any/True/False through BDDGraph::render_dot, read back with an independent DOT reader: every node id declared once, every edge endpoint declared, one root, at most one T and one F edge per test node, declared nodes = distinct sub-diagrams minus the omitted leaf, only edges into the omitted leaf missing, and the read-back decision graph (a missing edge meaning the omitted leaf) has the truth table of f. Larger diagrams (5..20 variables, up to several hundred nodes: parities, and/or chains, thresholds, comparators of two blocks, multiplexers in both variable orders, scrambled functions) built node by node with mk_choice x 3 filters, read back structurally: the exported graph must be isomorphic to the diagram, every node declared once. Parse-tree export: every AST <= 3 (4) nodes over an alphabet with every node kind (incl. references, empty lists, repeated operands) through SymbolicParseTree::render_dot, read back as a term DAG from node and edge labels, unfolded, == the parsed tree. CLI: -d / -p files of every formula <= 3 (4) nodes equal the API rendering up to node addresses. distinct = distinct DOT texts",
     assumptions: &["the DOT reader (harness/src/dot.rs) understands the one-statement-per-line format of the dot crate and Rust's escape_default", "label conventions: test nodes are labelled with the variable name, leaves true/false, edges T/F; parse-tree labels as printed by the exporter (Debug names of operators)"],
     max_shards: 64,
     run,
@@ -465,7 +465,252 @@ fn check_cli_files(ctx: &mut Ctx, text: &str) {
     }
 }
 
+// ---------------------------------------------------------------------------------------
+// larger diagrams (more than four variables, up to a few hundred nodes), built node by node
+// through the engine's public constructor from a reference construction (no connective is
+// involved) and read back STRUCTURALLY: the exported graph must be isomorphic to the diagram.
+
+/// name of family member i; None past the end
+fn big_member(i: usize) -> Option<(String, usize, Box<dyn Fn(&[bool]) -> bool>)> {
+    let mut v: Vec<(String, usize, Box<dyn Fn(&[bool]) -> bool>)> = vec![];
+    for n in [5usize, 6, 7, 8, 12, 16, 17, 20] {
+        v.push((format!("parity{n}"), n, Box::new(|a: &[bool]| a.iter().filter(|x| **x).count() % 2 == 1)));
+    }
+    for n in [7usize, 13, 20] {
+        v.push((format!("and{n}"), n, Box::new(|a: &[bool]| a.iter().all(|x| *x))));
+        v.push((format!("or{n}"), n, Box::new(|a: &[bool]| a.iter().any(|x| *x))));
+    }
+    for (n, k) in [(8usize, 4usize), (12, 6), (16, 3), (16, 8), (20, 10)] {
+        v.push((format!("atleast{k}of{n}"), n, Box::new(move |a: &[bool]| a.iter().filter(|x| **x).count() >= k)));
+        v.push((format!("exactly{k}of{n}"), n, Box::new(move |a: &[bool]| a.iter().filter(|x| **x).count() == k)));
+    }
+    // interleaving-sensitive comparators: x0..x(h-1) equals x(h)..x(2h-1), blocks apart
+    for h in [3usize, 4, 5, 6] {
+        v.push((format!("equal-halves{h}"), 2 * h, Box::new(move |a: &[bool]| (0..h).all(|i| a[i] == a[h + i]))));
+        v.push((format!("less-than-halves{h}"), 2 * h, Box::new(move |a: &[bool]| {
+            let (x, y) = ((0..h).fold(0usize, |s, i| s * 2 + a[i] as usize), (0..h).fold(0usize, |s, i| s * 2 + a[h + i] as usize));
+            x < y
+        })));
+    }
+    // multiplexers: s select bits choose among 2^s data bits
+    for sbits in [2usize, 3] {
+        v.push((format!("mux{sbits}"), sbits + (1 << sbits), Box::new(move |a: &[bool]| {
+            let sel = (0..sbits).fold(0usize, |s, i| s * 2 + a[i] as usize);
+            a[sbits + sel]
+        })));
+        v.push((format!("mux{sbits}-data-first"), sbits + (1 << sbits), Box::new(move |a: &[bool]| {
+            let d = 1usize << sbits;
+            let sel = (0..sbits).fold(0usize, |s, i| s * 2 + a[d + i] as usize);
+            a[sel]
+        })));
+    }
+    // a hash-like function with few regularities (skipped levels at many depths)
+    for n in [7usize, 9, 11] {
+        v.push((format!("scrambled{n}"), n, Box::new(move |a: &[bool]| {
+            let x = a.iter().fold(0u64, |s, b| s * 2 + *b as u64);
+            let h = x.wrapping_mul(0x9E37_79B9_7F4A_7C15).rotate_left(17) ^ x.wrapping_mul(0xC2B2_AE3D_27D4_EB4F);
+            (h >> 23) & 3 == 0
+        })));
+    }
+    if i < v.len() {
+        Some(v.swap_remove(i))
+    } else {
+        None
+    }
+}
+
+/// reduced ordered diagram of f over x1..xn (x1 on top), interned with mk_choice
+fn build_big(env: &Rc<rsbdd::bdd::BDDEnv<NamedSymbol>>, n: usize, f: &dyn Fn(&[bool]) -> bool) -> HN {
+    let syms: Vec<NamedSymbol> = (0..n).map(|i| sym(&format!("x{}", i + 1), 2 * i + 1)).collect();
+    // truth table with x1 as the most significant index bit: cofactors are contiguous halves
+    let mut tt = vec![false; 1 << n];
+    let mut a = vec![false; n];
+    for (idx, slot) in tt.iter_mut().enumerate() {
+        for (i, ai) in a.iter_mut().enumerate() {
+            *ai = (idx >> (n - 1 - i)) & 1 == 1;
+        }
+        *slot = f(&a);
+    }
+    fn go(env: &Rc<rsbdd::bdd::BDDEnv<NamedSymbol>>, syms: &[NamedSymbol], level: usize, tt: &[bool], memo: &mut rustc_hash::FxHashMap<(usize, Vec<bool>), HN>) -> HN {
+        if tt.len() == 1 {
+            return env.mk_const(tt[0]);
+        }
+        if let Some(h) = memo.get(&(level, tt.to_vec())) {
+            return h.clone();
+        }
+        let half = tt.len() / 2;
+        let r = if tt[..half] == tt[half..] {
+            go(env, syms, level + 1, &tt[..half], memo)
+        } else {
+            let e = go(env, syms, level + 1, &tt[..half], memo);
+            let t = go(env, syms, level + 1, &tt[half..], memo);
+            env.mk_choice(t, syms[level].clone(), e)
+        };
+        memo.insert((level, tt.to_vec()), r.clone());
+        r
+    }
+    go(env, &syms, 0, &tt, &mut rustc_hash::FxHashMap::default())
+}
+
+/// the exported graph is the diagram: same shape, labels and edge kinds, each diagram node
+/// declared exactly once (and only the omitted leaf and the edges into it missing)
+fn judge_bdd_dot_iso(g: &DotGraph, f: &HN, fi: usize) -> Vec<String> {
+    let mut c = vec![];
+    let mut ids: BTreeMap<&str, &str> = BTreeMap::new();
+    for (id, l) in &g.nodes {
+        if ids.insert(id, l).is_some() {
+            c.push(format!("node {id} is declared twice"));
+        }
+    }
+    let mut out: BTreeMap<&str, (Option<&str>, Option<&str>)> = BTreeMap::new();
+    let mut indeg: BTreeMap<&str, usize> = ids.keys().map(|k| (*k, 0)).collect();
+    for (u, w, l) in &g.edges {
+        if !ids.contains_key(u.as_str()) || !ids.contains_key(w.as_str()) {
+            c.push(format!("edge {u} -> {w} references an undeclared node"));
+            continue;
+        }
+        if l != "T" && l != "F" {
+            c.push(format!("edge label {l}"));
+            continue;
+        }
+        let e = out.entry(u).or_insert((None, None));
+        let slot = if l == "T" { &mut e.0 } else { &mut e.1 };
+        if slot.is_some() {
+            c.push(format!("node {u} has two {l} edges"));
+        }
+        *slot = Some(w);
+        *indeg.entry(w).or_insert(0) += 1;
+    }
+    if !c.is_empty() {
+        c.truncate(4);
+        return c;
+    }
+    let omitted: Option<bool> = match fi {
+        1 => Some(false),
+        2 => Some(true),
+        _ => None,
+    };
+    let is_omitted = |n: &BDD<NamedSymbol>| matches!((n, omitted), (BDD::True, Some(true)) | (BDD::False, Some(false)));
+    // distinct sub-diagrams by address (the diagram is interned) — and structurally, as a cross-check
+    let mut seen: Vec<*const BDD<NamedSymbol>> = vec![];
+    let mut stack = vec![f.clone()];
+    let mut shown = 0usize;
+    while let Some(n) = stack.pop() {
+        if seen.contains(&Rc::as_ptr(&n)) {
+            continue;
+        }
+        seen.push(Rc::as_ptr(&n));
+        if !is_omitted(&n) {
+            shown += 1;
+        }
+        if let BDD::Choice(t, _, e) = n.as_ref() {
+            stack.push(t.clone());
+            stack.push(e.clone());
+        }
+    }
+    if g.nodes.len() != shown {
+        c.push(format!("{} nodes declared, the diagram has {} distinct sub-diagrams to show", g.nodes.len(), shown));
+        return c;
+    }
+    if shown == 0 {
+        return c;
+    }
+    let roots: Vec<&str> = indeg.iter().filter(|(_, d)| **d == 0).map(|(k, _)| *k).collect();
+    if roots.len() != 1 {
+        c.push(format!("{} root nodes (nodes without incoming edge)", roots.len()));
+        return c;
+    }
+    // simultaneous walk
+    let mut map: BTreeMap<&str, *const BDD<NamedSymbol>> = BTreeMap::new();
+    let mut work: Vec<(&str, HN)> = vec![(roots[0], f.clone())];
+    while let Some((id, n)) = work.pop() {
+        if let Some(p) = map.get(id) {
+            if *p != Rc::as_ptr(&n) {
+                c.push(format!("node {id} stands for two different sub-diagrams"));
+                return c;
+            }
+            continue;
+        }
+        map.insert(id, Rc::as_ptr(&n));
+        let label = ids[id];
+        match n.as_ref() {
+            BDD::True | BDD::False => {
+                let want = if matches!(n.as_ref(), BDD::True) { "true" } else { "false" };
+                if label != want || out.contains_key(id) {
+                    c.push(format!("leaf {want} is exported as a node labelled '{label}'{}", if out.contains_key(id) { " with outgoing edges" } else { "" }));
+                    return c;
+                }
+            }
+            BDD::Choice(t, v, e) => {
+                if label != v.name.as_str() {
+                    c.push(format!("the test on {} is exported as a node labelled '{label}'", v.name));
+                    return c;
+                }
+                let (dt, de) = out.get(id).copied().unwrap_or((None, None));
+                for (edge, child, kind) in [(dt, t, "T"), (de, e, "F")] {
+                    match (edge, is_omitted(child)) {
+                        (Some(w), false) => work.push((w, child.clone())),
+                        (None, true) => {}
+                        (Some(_), true) => {
+                            c.push(format!("the {kind} edge of a test on {} leads somewhere although its target is the omitted leaf", v.name));
+                            return c;
+                        }
+                        (None, false) => {
+                            c.push(format!("the {kind} edge of a test on {} is missing", v.name));
+                            return c;
+                        }
+                    }
+                }
+            }
+        }
+    }
+    if map.len() != g.nodes.len() {
+        c.push(format!("{} declared nodes are not reachable from the root", g.nodes.len() - map.len()));
+    }
+    c
+}
+
+fn check_big_export(ctx: &mut Ctx, member: usize, fi: usize) {
+    let Some((name, n, f)) = big_member(member) else { return };
+    let case = json!({"part": "bdd-big", "member": member, "name": name, "filter": fi});
+    ctx.begin_case(|| case.clone());
+    ctx.count("evaluations", 1);
+    ctx.count("big_diagrams", 1);
+    let env = Rc::new(rsbdd::bdd::BDDEnv::<NamedSymbol>::new());
+    let d = build_big(&env, n, f.as_ref());
+    let key = format!("{TAG} diagram export: {name} ({} nodes), filter {:?}", robdd::distinct_nodes(&d).len(), filt(fi));
+    let mut buf: Vec<u8> = vec![];
+    if let Err(p) = guarded(|| BDDGraph::new(&d, filt(fi)).render_dot(&mut buf)) {
+        ctx.violation(key, format!("render_dot panicked: {p}"), case);
+        return;
+    }
+    let text = String::from_utf8_lossy(&buf).into_owned();
+    ctx.distinct(&normalise_ids(&text));
+    match dot::parse(&text) {
+        Err(e) => ctx.violation(key, format!("unreadable DOT: {e}"), case),
+        Ok(g) => {
+            let c = judge_bdd_dot_iso(&g, &d, fi);
+            if !c.is_empty() {
+                ctx.violation(key, c.join("; "), case);
+            }
+        }
+    }
+}
+
 fn run(ctx: &mut Ctx) {
+    {
+        let mut idx = 1u64 << 40;
+        let mut m = 0;
+        while big_member(m).is_some() {
+            for fi in 0..3 {
+                idx += 1;
+                if ctx.mine(idx) {
+                    check_big_export(ctx, m, fi);
+                }
+            }
+            m += 1;
+        }
+    }
     let th = ctx.thorough();
     for k in if th { vec![3usize, 4] } else { vec![3usize, 4] } {
         match Space::<NamedSymbol>::by_interning(&named(k)) {
@@ -548,6 +793,7 @@ fn run(ctx: &mut Ctx) {
 fn replay(ctx: &mut Ctx, c: &Value) {
     match c["part"].as_str() {
         Some("tree") => check_tree_export(ctx, c["text"].as_str().unwrap_or("")),
+        Some("bdd-big") => check_big_export(ctx, c["member"].as_u64().unwrap_or(0) as usize, c["filter"].as_u64().unwrap_or(0) as usize),
         Some("bdd-exotic") => {
             if let Ok(sp) = Space::<NamedSymbol>::by_interning(&named_exotic()) {
                 check_bdd_export(ctx, &sp, c["f"].as_u64().unwrap_or(0), c["filter"].as_u64().unwrap_or(0) as usize);
